@@ -2,6 +2,7 @@
 import itertools
 
 import numpy as np
+from mc.ref.linalg import allclose as _close
 import sympy
 
 from mc.engine import Section, jdump
@@ -71,18 +72,18 @@ def unwrap_controls(g):
 def expected_ok(prev, m, obs):
     """does obs satisfy the definition of modifier m applied to matrix prev?"""
     if m[0] == "dagger":
-        return np.allclose(obs, prev.conj().T, atol=ATOL), "conjugate transpose"
+        return _close(obs, prev.conj().T, atol=ATOL), "conjugate transpose"
     if m[0] == "controlled":
-        return obs.shape[0] == prev.shape[0] * 2 ** m[1] and np.allclose(obs, L.controlled(prev, m[1]), atol=ATOL), "identity on the first basis states, then the original matrix"
+        return obs.shape[0] == prev.shape[0] * 2 ** m[1] and _close(obs, L.controlled(prev, m[1]), atol=ATOL), "identity on the first basis states, then the original matrix"
     if m[0] == "exp":
-        return np.allclose(obs, L.expm(prev), atol=1e-7), "matrix exponential"
+        return _close(obs, L.expm(prev), atol=1e-7), "matrix exponential"
     if frac(m):
         q = int(m[1].split("/")[1])
-        return np.allclose(np.linalg.matrix_power(obs, q), prev, atol=1e-7), "a matrix whose %d-th power is the original" % q
+        return _close(np.linalg.matrix_power(obs, q), prev, atol=1e-7), "a matrix whose %d-th power is the original" % q
     p = m[1]
     if p >= 0:
-        return np.allclose(obs, np.linalg.matrix_power(prev, p), atol=ATOL), "repeated product"
-    return np.allclose(obs, np.linalg.inv(np.linalg.matrix_power(prev, -p)), atol=ATOL), "inverse of the repeated product"
+        return _close(obs, np.linalg.matrix_power(prev, p), atol=ATOL), "repeated product"
+    return _close(obs, np.linalg.inv(np.linalg.matrix_power(prev, -p)), atol=ATOL), "inverse of the repeated product"
 
 
 def classify(gi, m, prev, obs, exc):
@@ -105,7 +106,7 @@ def classify(gi, m, prev, obs, exc):
         base = num(inner.wrapped_gate.matrix)
         k = int(round(np.log2(obs.shape[0] / base.shape[0])))
         target = L.controlled(base.conj().T, k) if k > 0 else base.conj().T
-        if abs(q * inner.exponent - 1) < 1e-9 and np.allclose(np.linalg.matrix_power(obs, q), target, atol=1e-7):
+        if abs(q * inner.exponent - 1) < 1e-9 and _close(np.linalg.matrix_power(obs, q), target, atol=1e-7):
             return "D15:dagger-of-fractional-power-is-power-of-dagger"
     if m[0] == "dagger":
         # the same root cause further up a chain: integer powers / controls sitting between the dagger and a fractional Power (X.power(1/2).power(3).dagger).
@@ -122,7 +123,7 @@ def classify(gi, m, prev, obs, exc):
             return None
         try:
             alt = over_power_of_dagger(gi)
-            if alt is not None and alt.num_qubits == gi.num_qubits and np.allclose(num(alt.matrix), obs, atol=1e-7):
+            if alt is not None and alt.num_qubits == gi.num_qubits and _close(num(alt.matrix), obs, atol=1e-7):
                 return "D15:dagger-of-fractional-power-is-power-of-dagger"
         except Exception:  # noqa: BLE001
             pass
@@ -176,7 +177,7 @@ def chain_case(case):
             # a listed root cause: remember it, and keep judging the later steps against what this step returned (the oracle is step-wise),
             # so that a different defect further down the chain is not hidden behind the known one
             pending = pending or r
-        changed = not (obs.shape == M.shape and np.allclose(obs, M, atol=1e-9))
+        changed = not (obs.shape == M.shape and _close(obs, M, atol=1e-9))
         M = obs
     # replace_params: modifying the gate built with new parameters == replacing the parameters of the modified gate
     if base_params and all(isinstance(p, (int, float)) for p in base_params):
@@ -193,7 +194,7 @@ def chain_case(case):
             return {"ok": False, "msg": "replace_params(%s) on the modified gate differs from modifying the gate built with the new parameters (chain %s)" % (newp, case["chain"]),
                     "expected": str(b), "observed": str(a), "sig": "replace_params", "ops": k}
         if M is not None and not any(trans(m) for m in case["chain"]):
-            if not np.allclose(num(a.matrix), num(b.matrix), atol=ATOL):
+            if not _close(num(a.matrix), num(b.matrix), atol=ATOL):
                 return {"ok": False, "msg": "replace_params(%s): matrices differ" % (newp,), "sig": "replace_params:matrix", "ops": k}
     if pending:
         return {**pending, "ops": k}
